@@ -160,6 +160,14 @@ def check(repo):
                 args = [(pos[i] if i < len(pos) else None, a) for i, a in enumerate(t[2])]
             elif t[0] == "call" and is_builder(repo, t[1]):
                 args = [(pos[0] if pos else "D", t)]
+            elif t[0] == "cont" and t[2][0] == "call" and (t[2][1].endswith("EncryptedDatabase.__init__") or is_builder(repo, t[2][1])):
+                # the index object is filled (mutated) after it was constructed: tables merged in place keep the order in which the
+                # pieces were produced, whatever order each piece has
+                if s.name in SORTED_SCHEMES:
+                    r1.fail_fn(enc, n.stmt, "index filled after construction",
+                               "%s._Enc returns an encrypted database that it keeps filling after construction (%s): entries are merged into the table in the order in which "
+                               "they were produced, so the table as a whole is not in label order and reflects the order of the input" % (s.name, show(t, maxdepth=2)[:100]))
+                continue
             else:
                 raise AnalysisError("%s._Enc returns %s, not an encrypted database" % (s.name, show(t)[:80]))
             for attr, a in args:
@@ -256,9 +264,25 @@ def _placement_ok(key, enc):
     if k[0] == "mcall" and k[2] == "pop":
         src = k[1]
         init = src[2] if src[0] == "cont" else src
-        if init[0] == "call" and init[1] in ("random.sample", "secrets.SystemRandom.sample") or \
-                (init[0] == "mcall" and init[2] == "sample"):
+        if src[0] == "cont":
+            ordered = [m for m in src[3] if m[0] in ("sort", "reverse") or (m[0] == "nested:sort")]
+            if any(m[0].endswith("sort") for m in ordered):
+                return False, "pop() from a list that is sorted in place after it was drawn (%s): from then on the free slots are handed out in ascending order" % show(init, maxdepth=2)[:50]
+        if init[0] == "call" and init[1] in ("random.sample", "secrets.SystemRandom.sample"):
             return True, "random.sample(...).pop()"
+        if init[0] == "mcall" and init[2] == "sample":
+            gen = init[1]
+            # a generator object of our own: SystemRandom, or Random() seeded by the OS / with enough entropy
+            if gen[0] == "call" and gen[1] in ("random.SystemRandom", "secrets.SystemRandom"):
+                return True, "SystemRandom().sample(...).pop()"
+            if gen[0] == "call" and gen[1] == "random.Random":
+                seed = gen[2][0] if gen[2] else None
+                if seed is None:
+                    return True, "Random().sample(...).pop() (seeded by the OS)"
+                if seed[0] == "call" and seed[1] == "os.urandom" and seed[2] and seed[2][0][0] == "const" and isinstance(seed[2][0][1], int) and seed[2][0][1] >= 16:
+                    return True, "Random(os.urandom(>=16)).sample(...).pop()"
+                return False, "a permutation drawn from random.Random(%s): the seed limits the number of possible layouts (a constant, a few bytes, or data-dependent seed makes layouts repeat)" % show(seed, maxdepth=3)[:60]
+            return False, "sample() of an unknown generator %s" % show(gen, maxdepth=2)[:50]
         if src[0] == "cont" and any(m[0] == "shuffle" for m in src[3]):
             return True, "pop from a shuffled list"
         return False, "pop() from an ordered list (%s)" % show(init, maxdepth=3)[:60]
